@@ -459,6 +459,9 @@ class _Idioms(ast.NodeTransformer):
                 and isinstance(n.func.body, ast.Subscript):
             return ast.Subscript(value=n.func.body.value, slice=n.args[0], ctx=ast.Load())
         d = dotted_of(n.func)
+        # any(E for ...) / all(E for ...): the elements are only tested for truth
+        if d in ("any", "all") and len(n.args) == 1 and not n.keywords and isinstance(n.args[0], (ast.GeneratorExp, ast.ListComp)):
+            n.args[0].elt = self._truth(n.args[0].elt)
         if d and d.split(".")[0] in ("np", "numpy") and d.split(".")[-1] in _NP_METHODS and len(d.split(".")) == 2 and n.args \
                 and not isinstance(n.args[0], ast.Starred):
             recv = n.args[0]
